@@ -14,20 +14,20 @@ import (
 var ErrInjected = errors.New("injected I/O fault")
 
 type Source struct {
-	Data        []byte
-	Tail        int64 // lazily generated payload bytes following Data
-	Sizes       []int // segment sizes, cycled; nil = deliver as requested
-	FaultAt     int64 // < 0: none
+	Data          []byte
+	Tail          int64 // lazily generated payload bytes following Data
+	Sizes         []int // segment sizes, cycled; nil = deliver as requested
+	FaultAt       int64 // < 0: none
 	FaultWithData bool  // the call reaching FaultAt returns its bytes together with the error
-	DataWithEOF bool  // the final bytes are returned together with io.EOF
+	DataWithEOF   bool  // the final bytes are returned together with io.EOF
 
-	Pos       int64
-	Calls     int
-	ShortCalls int // calls that returned fewer bytes than requested while more were available
-	MultiCall bool // input delivered in >= 2 data-bearing calls
-	dataCalls int
-	sizeIdx   int
-	failed    bool
+	Pos        int64
+	Calls      int
+	ShortCalls int  // calls that returned fewer bytes than requested while more were available
+	MultiCall  bool // input delivered in >= 2 data-bearing calls
+	dataCalls  int
+	sizeIdx    int
+	failed     bool
 }
 
 func New(data []byte) *Source { return &Source{Data: data, FaultAt: -1} }
